@@ -11,7 +11,8 @@ from props.C03 import norm
 LEVEL = 'exploration'
 SHARDS = {'quick': 8, 'thorough': 16}
 RULE = ('Pairs (recorded program P, replayed program P\'): P\' is derived from P by renaming input aliases (with fallback '
-        'alias lists / functions that do or do not contain the old alias), changing call arguments, dropping calls and '
+        'alias lists / functions that do or do not contain the old alias; the recording may hold entries under the new alias '
+        'AND the old one), changing call arguments, dropping calls and '
         'adding new input calls and output calls beyond the recorded ones; every input declaration of P\' draws '
         'run_intercepted_when_missing in {F,T} and value_when_missing in {unset, None, 0, 0.0, "", [], {}, False, '
         'truthy, callable}; every output declaration draws fail_on_no_recorded_result in {T,F} and a default in '
@@ -66,6 +67,9 @@ def predict(P2, model):
             k = PS.model_key(P2, s)
             found = model.inputs.get(k)
             via = 'main'
+            if found is not None and d.get('fallback') and any(((fa,) + tuple(k[1:])) in model.inputs
+                                                                for fa in d['fallback']['aliases']):
+                combos.append('main-and-fallback-both-present')
             if found is None:
                 absent += 1
                 fb = d.get('fallback')
@@ -231,15 +235,36 @@ def pairs(draw):
                              draw(st.lists(PS.output_decls(), max_size=2)))
     steps = draw(PS.step_lists(ins, outs, vals, 7, ('ret', 'ret', 'raise'), ('ret', 'ret', 'raise'), threads=False))
     steps = [s for s in steps]
+    # "twin" declarations: the recorded program already calls an input under the NEW alias as well (both the old and the
+    # renamed input were live when it was recorded), with the same arguments but its own values - so that main key and
+    # fallback key of a replayed call can both be present in the recording
+    new_alias = {}
+    for i, d in enumerate(list(ins)):
+        if len(ins) < 4 and not d.get('resolver') and draw(st.booleans()):
+            na = draw(st.sampled_from([d['alias'] + '.v2', '0.' + d['alias']]))
+            if any(x['alias'] == na for x in ins):
+                continue
+            twin = dict(d, alias=na)
+            ins.append(twin)
+            new_alias[i] = na
+            for s_ in [x for x in steps if x['t'] == 'in' and x['i'] == i]:
+                if draw(st.booleans()):
+                    t_ = copy.deepcopy(s_)
+                    t_['i'] = len(ins) - 1
+                    t_['ret'] = ['TWIN', draw(st.integers(0, 9))]
+                    t_['beh'] = 'ret'
+                    steps.insert(draw(st.integers(0, len(steps))), t_)
     P = PS.assign_sids(dict(klass=draw(st.sampled_from(['instance', 'class'])), ins=ins, outs=outs, steps=steps,
                             ending='return', result=None, extractor='none'))
     P = PS.normalise_inputs(P)
     P2 = copy.deepcopy(P)
-    for d in P2['ins']:
+    for i, d in enumerate(P2['ins']):
         mode = draw(st.sampled_from(['keep', 'keep', 'rename']))
         old = d['alias']
+        if i in new_alias:
+            mode = 'rename'
         if mode == 'rename':
-            d['alias'] = old + '.v2'
+            d['alias'] = new_alias.get(i, old + '.v2')
             olds = [old + '.n1', old + '.n2'] if d.get('resolver') else [old]
             choice = draw(st.sampled_from(['none', 'old', 'junk+old', 'junk', 'old+junk']))
             if choice != 'none':
